@@ -4,6 +4,8 @@ def allocated(x): return x is not None
 def cast(cls, x): return x
 def dictview(d): return {k: tuple(v) for k, v in d.items()}
 def keyset(d): return set(d)
+def fieldmap(d, f): return {k: getattr(v, f) for k, v in d.items()}
+def odict_values(d): return tuple(d.values())
 def ints(): return list(range(-3, 48)) + list(range(0xff000000 - 2, 0xff000000 + 4))
 def strs(): return ['', 'a', 'wl_surface', 'wl_*', '*', 'xdg_*', 'wl_display', 'x y', '*a*', 'wl_registry', 'wl_callback', 'wl_buffer', '.', 'a.b',
                     'c0', 'c1', 'c2', 'zz', 'extra', 'z', 'PARSED', 'A', 'B']
@@ -12,4 +14,4 @@ def sext(a, b): return a == b
 def typed(x, t): return x
 def fresh(x): return True
 
-__all__ = ['allocated', 'cast', 'dictview', 'keyset', 'ints', 'strs', 'implies', 'sext', 'typed', 'fresh']
+__all__ = ['fieldmap', 'odict_values', 'allocated', 'cast', 'dictview', 'keyset', 'ints', 'strs', 'implies', 'sext', 'typed', 'fresh']
